@@ -1606,7 +1606,7 @@ pub fn run_c13(ctx: &Ctx) -> i32 {
          divergent rewrites within one side are not generated and the hidden-clause is skipped if \
          one is observed",
     );
-    let n = ctx.tier().pick(700, 30_000);
+    let n = ctx.tier().pick(1_500, 30_000);
     par_cases(ctx, n, threads(), |i, cs, rng| {
         let log: RefCell<Vec<String>> = RefCell::new(vec![]);
         // Commit timestamps come from the real clock: with a fixed timestamp a rebase
